@@ -171,11 +171,32 @@ def check(rows_idx, probes=None):
             return
 
 
+def check_most_specific_setting():
+    """a budget whose settings say rule_mode: most_specific: the CSV rules and the migrated file classify alike in that mode too"""
+    rows = [('COSTCO', 'Costco', 'Food', 'Grocery', ''), ('COSTCO GAS', 'Costco Gas', 'Transport', 'Gas', '')]
+    O.case(('most_specific',))
+    csv_path = write_csv(rows)
+    content = csv_to_merchants_content(mu.load_merchant_rules(csv_path))
+    rules_path = os.path.join(TMP, 'merchants.rules')
+    open(rules_path, 'w', encoding='utf-8').write(content)
+    mu.clear_engine_cache()
+    a = classify(mu.get_all_rules(csv_path, match_mode='most_specific'), 'COSTCO GAS #123', 30.0, date(2025, 1, 15))
+    mu.clear_engine_cache()
+    b = classify(mu.get_all_rules(rules_path, match_mode='most_specific'), 'COSTCO GAS #123', 30.0, date(2025, 1, 15))
+    mu.clear_engine_cache()
+    if a != b:
+        O.fail('C14.classification_differs.rule_mode_most_specific', {'most_specific': [r[0] for r in rows], 'description': 'COSTCO GAS #123'}, a, b,
+               "normalize_merchant with get_all_rules(csv, 'most_specific') vs with the migrated .rules in the same mode")
+
+
 def main():
     try:
         if O.witness:
             w = O.witness
             probes = None
+            if 'most_specific' in w:
+                check_most_specific_setting()
+                O.finish()
             if 'description' in w:
                 y, m, d = [int(x) for x in w['date'].split('-')]
                 probes = [(w['description'], w['amount'], date(y, m, d))]
@@ -189,6 +210,7 @@ def main():
                   [0, 1, 2, 3, 4, 6, 7, 8, 9, 10, 11, 12, 17, 19, 20, 21, 22, 23, 24]]
         for g in groups:
             check(g)
+        check_most_specific_setting()
         O.sample({'rows': [1, 2], 'patterns': [ROWS[1][0], ROWS[2][0]]})
     finally:
         shutil.rmtree(TMP, ignore_errors=True)
